@@ -12,7 +12,7 @@ from props import C11, C12, C09, C15
 
 RULE = ('non-trivial = a script whose observations were compared across all configurations; distinct by (script kind, seed)')
 CONFIGS = [('umol', 'uL', 10), ('mmol', 'mL', 10), ('nmol', 'uL', 10), ('mol', 'uL', 10), ('umol', 'L', 10), ('mol', 'L', 10), ('umol', 'daL', 10),
-           ('mmol', 'uL', 10), ('umol', 'uL', 12)]
+           ('mmol', 'uL', 10), ('umol', 'uL', 12), ('µmol', 'µL', 10)]      # the last one: the shipped units spelled with the micro sign
 YAML = """internal_precision: {prec}
 precisions:
   default: 3
